@@ -52,13 +52,33 @@ def gen_case(tape, tier):
     if cfg["entry"] == "map_async" and cfg["executor"]["kind"] == "sequential":
         cfg["executor"] = {"kind": "default-pool", "ex": {"mode": "process", "workers": 2, "start": "fifo",
                                                           "pickle_at": "submit"}}
-    return {"workload": w, "config": cfg}
+    case = {"workload": w, "config": cfg}
+    if tape.coin(0.3, "second-run"):
+        # the same Pipeline object is mapped a second time under another configuration: nothing may leak
+        cfg2 = dict(cfg, entry=tape.pick(["map", "map", "map_async"], "entry"), executor=C.gen_executor(tape, w),
+                    storage=C.gen_storage(tape, w), persist_memory=bool(tape.coin(0.7, "persist")))
+        if not C.needs_folder(cfg2["storage"]):
+            cfg2["run_folder"] = bool(tape.coin(0.5, "folder"))
+        else:
+            cfg2["run_folder"] = True
+        if cfg2["entry"] == "map_async" and cfg2["executor"]["kind"] == "sequential":
+            cfg2["executor"] = {"kind": "default-pool", "ex": {"mode": "process", "workers": 2, "start": "fifo", "pickle_at": "submit"}}
+        case["second"] = cfg2
+    return case
 
 
 def simplify(case):
+    if case.get("second"):
+        c = copy.deepcopy(case)
+        del c["second"]
+        yield c
+        c = copy.deepcopy(case)
+        c["config"] = c.pop("second")
+        yield c
     for w in C.simplify_workload(case["workload"]):
         c = copy.deepcopy(case)
         c["workload"] = w
+        c.pop("second", None)
         # executor/storage dicts keyed by outputs must stay total: fall back to uniform
         if c["config"]["executor"]["kind"] in ("dict", "dict-default"):
             per = c["config"]["executor"]["per"]
@@ -114,7 +134,13 @@ def run_case(case, exec_seed=None, exec_tape=None):
     def V(oracle, kind, detail=None):
         viol.append({"property": PID, "oracle": oracle, "kind": kind, "detail": detail})
 
-    with C.Scratch() as root, warnings.catch_warnings():
+    runs = [("first", cfg)] + ([("second", case["second"])] if case.get("second") else [])
+    shared = {}
+    digests = []
+    for run_tag, cfg in runs:
+      if viol:
+          break
+      with C.Scratch() as root, warnings.catch_warnings():
         warnings.simplefilter("ignore")
         sim = C.new_sim(tape, root, preempt=cfg["preempt"],
                         fs_kwargs={"short_writes": cfg.get("short_writes", 0.0), "buffer_size": cfg.get("buffer_size")})
@@ -122,9 +148,12 @@ def run_case(case, exec_seed=None, exec_tape=None):
         res = None
         err = None
         loop = None
+        nviol0 = len(viol)
         try:
             with sim:
-                p = build_pipeline(w)
+                if "p" not in shared:
+                    shared["p"] = build_pipeline(w)
+                p = shared["p"]
                 inputs = build_inputs(w)
                 executor, parallel = C.make_executor(sim, cfg["executor"])
                 kw = dict(run_folder=folder, storage=C.storage_arg(cfg["storage"]),
@@ -184,12 +213,18 @@ def run_case(case, exec_seed=None, exec_tape=None):
                         V("calls", kind, detail)
         finally:
             C.restore_default_pool(sim)
+      digests.append(sim.kernel.digest())
+      out["yields"] = out.get("yields", 0) + sim.kernel.steps
+      for v in viol[nviol0:]:
+          v["kind"] = v["kind"] if run_tag == "first" else "second-run:" + v["kind"]
+    cfg = case["config"]
     k = sim.kernel
     out["exec_tape"] = tape.recorded()
-    out["digest"] = k.digest()
-    out["yields"] = k.steps
+    out["digest"] = C.digest_of(digests)
     out["sim_time"] = 0.0
     pr = dict(sim.probes)
+    if len(runs) > 1:
+        pr["second_run_on_same_pipeline"] = 1
     pr[f"entry:{cfg['entry']}"] = 1
     pr[f"executor:{cfg['executor']['kind']}"] = 1
     for s in ([cfg["storage"]] if isinstance(cfg["storage"], str) else set(cfg["storage"].values())):
